@@ -18,12 +18,19 @@ def run(ctx):
     sd = "specs/keepclient"
     pkg = "sdk/go/keepclient"
     # GEN: design-level check, exhaustive over the bounded instance
-    ctx.tlc(sd, "KeepPut", "MC_KeepPut_big.cfg" if ctx.thorough else "MC_KeepPut.cfg",
-            timeout=1500, label="exhaustive: refinement, accounting, termination")
+    if ctx.thorough:
+        ctx.tlc(sd, "KeepPut", "MC_KeepPut_bigA.cfg", timeout=3000, label="exhaustive (4 services, want<=3, 1 retry)")
+        ctx.tlc(sd, "KeepPut", "MC_KeepPut_bigB.cfg", timeout=3000, label="exhaustive (3 services, want<=3, 2 retries)")
+    else:
+        ctx.tlc(sd, "KeepPut", "MC_KeepPut.cfg", timeout=1500, label="exhaustive: refinement, accounting, termination")
     # GEN: scenarios = every path (completion order x outcomes) of the bounded instance
     scns, r = ctx.gen(sd, "KeepPut", "Gen_KeepPut_big.cfg" if ctx.thorough else "Gen_KeepPut.cfg",
                       timeout=1500, label="scenario emission")
     rnd = random.Random(ctx.seed)
+    ctx.extra["scenarios_emitted_by_model"] = len(scns)
+    if ctx.thorough and len(scns) > 40000:
+        rnd.shuffle(scns)
+        scns = scns[:40000]
     if not ctx.thorough and len(scns) > 2500:
         # quick tier: all short scenarios, a seeded sample of the rest
         scns.sort(key=lambda s: (len(s["steps"]), s["id"]))
